@@ -47,6 +47,14 @@ func (data MoveStakeData) basicCheck(tx *Transaction, context *state.CheckState)
 		}
 	}
 
+	if !context.Candidates().Exists(data.ToPubKey) {
+		return &Response{
+			Code: code.CandidateNotFound,
+			Log:  "Candidate with such public key not found",
+			Info: EncodeError(code.NewCandidateNotFound(data.ToPubKey.String())),
+		}
+	}
+
 	sender, _ := tx.Sender()
 
 	var wlStake = new(big.Int)
